@@ -69,8 +69,28 @@ var AllScenarios = func() []Scenario {
 			out = append(out, Scenario{P: x.p, Q1: x.q1, Q2: x.q2, L: l, U: 1})
 		}
 	}
+	// Late configurations only (see lateOnly): a leader message that arrives after the phase timeout that would have
+	// used it, and the round in which NOTHING the leader sends before its COMMIT reaches anybody while it still collects
+	// whatever votes the replicas send (votes on stored messages, on a tree that keeps them)
+	for _, bump := range []bool{false, true} {
+		for _, l := range []int{0, 1, 3} {
+			for t := 1; t <= 3; t++ {
+				for _, e := range []int{0, 2} {
+					out = append(out, Scenario{Bump: bump, E: e, L: l, T: t})
+				}
+			}
+		}
+		for _, l := range []int{1, 3} {
+			for q2 := 3; q2 <= 6; q2++ {
+				out = append(out, Scenario{Bump: bump, P: 1, Q1: 3, Q2: q2, L: l})
+			}
+		}
+	}
 	return out
 }()
+
+// lateOnly: scenarios offered in Late configurations only.
+func lateOnly(s Scenario) bool { return s.T > 0 || (s.P == 1 && s.Q1 == 3 && s.Q2 >= 3) }
 
 // PredictLeader computes who every honest node elects at (rh, round) when all ELECTION
 // messages are delivered: the same exported functions the implementation uses.
@@ -99,6 +119,7 @@ type Info struct {
 	LeaderStay int // leader if no bump
 	LeaderBump int // leader after a bump
 	Byz        int
+	Late       bool
 	ByzElect   bool // the adversary holds an election certificate of an earlier round of the current root height that names the Byzantine node
 }
 
@@ -116,7 +137,7 @@ func ParseInfo(s string) Info {
 }
 
 func (w *World) Info() Info {
-	in := Info{Terminal: true, Byz: w.Cfg.Byz, NCerts: len(w.CertBlocks())}
+	in := Info{Terminal: true, Byz: w.Cfg.Byz, NCerts: len(w.CertBlocks()), Late: w.Cfg.Late}
 	var rh, round uint64
 	for i, n := range w.Nodes {
 		if w.Honest(i) && w.Live(i) {
@@ -152,7 +173,27 @@ func OpsFor(in Info, reduced bool) []int {
 		if s.Bump {
 			leader = in.LeaderBump
 		}
-		if reduced {
+		if in.Late && reduced {
+			// Late configurations in the reduced alphabet spend their budget on timing, not on the leader's other tricks:
+			// whole / blacked-out / PRECOMMIT-to-leader-only / COMMIT-to-nobody rounds, an honest-acting or re-proposing
+			// Byzantine leader, each kind of leader message late, and the silent round that ends in a COMMIT to one node
+			if s.V != 0 || s.E != 0 || s.L > 1 || s.J > 0 || s.U > 0 {
+				continue
+			}
+			if !lateOnly(s) {
+				switch [3]int{s.P, s.Q1, s.Q2} {
+				case [3]int{0, 0, 0}, [3]int{1, 0, 0}, [3]int{0, 1, 0}, [3]int{0, 0, 1}:
+				default:
+					continue
+				}
+			} else if s.Q2 >= 3 && s.Q2-3 == in.Byz {
+				continue
+			}
+		} else if lateOnly(s) {
+			if !in.Late || (s.Q2 >= 3 && s.Q2-3 == in.Byz) {
+				continue
+			}
+		} else if reduced {
 			// the reduced alphabet keeps one representative per qualitatively different round outcome
 			if s.V != 0 || s.E == 1 {
 				continue
